@@ -157,20 +157,26 @@ def interval_provenance(fin, k, val):
 
 def cell_cases(cell, max_conds=6):
     """a cell whose value / flag are still joined over conditions, split into its concrete cases"""
+    out = []
+    for asm, c in cell_cases_asm(cell, max_conds):
+        if c not in out:
+            out.append(c)
+    return out
+
+
+def cell_cases_asm(cell, max_conds=6, flag_only=False):
+    """like cell_cases, each case with the truth assignment of the joining conditions that selects it;
+    flag_only: split only over the conditions the flag is joined over"""
     import itertools
     from .. import domains as D
     if cell is None or cell[0] != 'Ok':
-        return [cell]
-    conds = D.ite_conds(cell[1])
-    D.ite_conds(cell[2], conds)
-    if not conds:
-        return [cell]
-    if len(conds) > max_conds:
-        return [cell]
+        return [({}, cell)]
+    conds = [] if flag_only else D.ite_conds(cell[1])
+    conds = D.ite_conds(cell[2], conds)
+    if not conds or len(conds) > max_conds:
+        return [({}, cell)]
     out = []
     for bits in itertools.product([True, False], repeat=len(conds)):
         asm = dict(zip(conds, bits))
-        c = ('Ok', E.specialise(cell[1], asm), E.specialise(cell[2], asm))
-        if c not in out:
-            out.append(c)
+        out.append((asm, ('Ok', E.specialise(cell[1], asm), E.specialise(cell[2], asm))))
     return out
